@@ -90,7 +90,7 @@ def universes(bare):
     return u
 
 
-def outcome(eng, text, sym):
+def outcome(eng, text, sym, raw=False):
     try:
         di = synmodel.derive_input(eng, text, sym)
         r = eng.call_fn('expand::derive', [Ref(Cell(di))])
@@ -99,6 +99,8 @@ def outcome(eng, text, sym):
     if eng.concretize(r.d, [0, 1]) == 0:
         return ('ok', expander.flat(r.p[0][0]))
     ev = r.p[1][0]
+    if raw:
+        return ('err', [m for _, m in ev.msgs], ev.parse)
     return ('err', sorted(str(m).replace(POSTFIX, '') for _, m in ev.msgs), ev.parse)
 
 
